@@ -85,12 +85,16 @@ def judge_v2(case, rec):
     rec.case(case, doc["model_type"] != "intercept_only", ["shape=v2:" + doc["model_type"], "loads=%d" % case["loads"]])
 
 
-def predict_sweep(case, T):
+def predict_sweep(case, T, rows=None):
+    """predict() over the sweep; with rows=(a, b) only over that contiguous part of it (same dates, same temperatures)."""
     from opendsm import eemeter as em
 
     m, doc = gp.build_model(case)
     idx = pd.date_range("2019-01-01", periods=len(T), freq="D", tz=case["tz"])
-    rep = em.DailyReportingData(pd.DataFrame({"temperature": T}, index=idx), is_electricity_data=True)
+    frame = pd.DataFrame({"temperature": T}, index=idx)
+    if rows is not None:
+        frame = frame.iloc[rows[0]:rows[1]]
+    rep = em.DailyReportingData(frame, is_electricity_data=True)
     out = m.predict(rep)
     return out, doc
 
@@ -212,6 +216,32 @@ def judge(case, rec):
     if (d[~near] > tol[~near]).any():
         i = int(np.argmax(np.where(near, 0, d - tol)))
         rec.violation(K + "/differs-from-formula", case, "T=%r predicted=%r formula=%r" % (T[i], f[i], y[i]))
+    # 7. the value for a day depends on that day's temperature only: predicting a part of the sweep on its own (only the days between
+    # the recorded balance points, only the cold days, only the hot days, one day) gives the values the whole sweep gave
+    parts = []
+    if c.get("hdd_bp") is not None and c.get("cdd_bp") is not None:
+        lo_bp, hi_bp = min(c["hdd_bp"], c["cdd_bp"]), max(c["hdd_bp"], c["cdd_bp"])
+        a, z = int(np.searchsorted(T, lo_bp, side="right")), int(np.searchsorted(T, hi_bp, side="left"))
+        parts += [("between-recorded-balance-points", a, z), ("cold-days", 0, a), ("hot-days", z, len(T))]
+        if z - a >= 1:
+            parts.append(("one-day", a, a + 1))
+            parts.append(("one-day", z - 1, z))
+    else:
+        bp = c.get("hdd_bp") if c.get("hdd_bp") is not None else c.get("cdd_bp")
+        if bp is not None:
+            a = int(np.searchsorted(T, bp, side="right"))
+            parts += [("cold-days", 0, a), ("hot-days", a, len(T))]
+    for pname, a, z in parts:
+        if z - a < 1:
+            continue
+        sub, _ = predict_sweep(case, T, rows=(a, z))
+        for col, whole in (("predicted", f), ("heating_load", h), ("cooling_load", co)):
+            got = sub[col].values.astype(float)
+            if len(got) != z - a or not (np.abs(got - whole[a:z]) <= tolv).all():
+                i = int(np.argmax(np.abs(got - whole[a:z]))) if len(got) == z - a else 0
+                rec.violation(K + "/depends-on-the-other-days/" + pname, case, "%s at T=%r is %r when only the %s are predicted, %r within the whole sweep" % (
+                    col, float(T[a + i]), float(got[i]) if len(got) == z - a else None, pname, float(whole[a + i])))
+                break
     regimes = True
     if hb is not None:
         regimes = (T < hb - tolT).any() and (T > cb + tolT).any() and (hb == cb or ((T > hb) & (T < cb)).any())
